@@ -121,6 +121,19 @@ func (e *Engine) intrinsic(st *State, fn *ssa.Function, full string, args []Valu
 		case "vfSpawn":
 			e.spawn(st, args[0].(FuncV), site)
 			return nil, true
+		case "vfStallHook":
+			a, ok := args[0].(SliceV).P.single()
+			cut, ok2 := constInt(args[1])
+			if !ok || !ok2 || a.Obj == nil {
+				panic(e.unsupported("vfStallHook needs a region and a constant cut"))
+			}
+			e.hookObj = a.Obj
+			e.hookFn = args[2].(FuncV)
+			e.hookCnt = e.allocVal(st, types.Typ[types.Int64], IntV{c.BV(uint64(cut), 64)}, "hookcnt")
+			return nil, true
+		case "vfStallHookOff":
+			e.hookObj = nil
+			return nil, true
 		case "vfSpawnCut":
 			cut, ok := constInt(args[1])
 			if !ok {
@@ -141,6 +154,9 @@ func (e *Engine) intrinsic(st *State, fn *ssa.Function, full string, args []Valu
 			e.atomicMark(st, false)
 			return nil, true
 		case "vfYield":
+			return nil, true
+		case "vfInfeasibleOK":
+			e.InfeasibleOK = true
 			return nil, true
 		case "vfPrune":
 			panic(&PruneCase{})
